@@ -43,7 +43,8 @@ def run_variant(prop: str, v: "variants.Variant", tier: str) -> dict:
     try:
         src = variants.apply(v)
         prog = Program(src, root="<corpus:" + v.vid + ">")
-        ctx = analyse(prog, prop, tier)
+        # variants show that a rule is alive / not brittle: the quick configuration set suffices
+        ctx = analyse(prog, prop, "quick")
         viol = [o for o in ctx.violations]
         und = ctx.undecideds
         res = {
